@@ -223,6 +223,9 @@ def build_state(world: Dict[str, Any], *, store: Any = None) -> Dict[str, Any]:
                              "mem_backend": "inmemory", "version_etag": "0"}
     if world.get("gel") is not None:
         state["graph"] = copy.deepcopy(world["gel"])
+        # a state that already carries a GEL graph has been booted: the boot hook of the first turn would otherwise
+        # re-initialise state.graph (load_latest_snapshot resets the containers before looking for a file)
+        state["_boot_loaded"] = True
     return state
 
 
